@@ -255,6 +255,23 @@ CLAIMED = {
         "technique": "abstract interpretation (units with loop fixed point, forms), "
                      "handler inventory",
     },
+    "C20": {
+        "text": "Decides, for the 7 non-Linux platform configurations whose code no "
+                "test here executes: exception-escape coverage of every Process method "
+                "(no ESRCH/EPERM/EACCES - and ENOENT on the procfs platforms - from a "
+                "call taking the object's pid escapes untranslated); the translator "
+                "matrix evaluated class by class per platform incl. the PID-0 clause and "
+                "(pid, name[, ppid]) payload; decorators applied to functions; documented "
+                "named tuple per method; one-shot map <-> C Py_BuildValue slot agreement "
+                "per #if configuration through a role table; no discarded pure-call "
+                "results in the front end; documentation Availability vs. the platform "
+                "evaluator. Non-Linux C is read textually only.",
+        "note": "Trusted: translator matrix / role tables in sa/oracles/platforms.py; "
+                "errno<->class mapping; the text extractor's #if evaluator; natives "
+                "taking the pid may raise ESRCH/EPERM/EACCES.",
+        "technique": "exception-escape analysis per platform, table evaluation, "
+                     "cross-language slot agreement by text extraction",
+    },
 }
 
 NOT_APPLICABLE = {}
